@@ -147,7 +147,7 @@ PROPS = {
     "C20": {
         "title": "Pooled write buffers are held only while writing and never touched after release",
         "level": "exploration",
-        "rule": "1-4 connections (either role, compression or not, one WriteBufferSize) share one instrumented BufferPool that attributes Get/Put to the scheduled connection, locates the pooled []byte by reflection, poisons it on Put and verifies the poison on the next Get and at the end; each connection runs a rapid-generated write program (invalid requests, writers left open, close messages, optional transport fault at operation k as in C10); the programs are interleaved API call by API call by a generated schedule. Oracle after EVERY call: buffers held by the connection == 1 iff a message writer is open and has not failed (0 between messages however the message ended); Get/Put alternate, the buffer returned is the one taken and is not already pooled; poison intact; afterwards Get==Put and each connection's wire decodes to exactly its own messages. Non-trivial = >=2 connections alternating on the pool, or a message ended by an error / implicit close / invalid request.",
+        "rule": "1-4 connections (either role, compression or not, one WriteBufferSize) share one instrumented BufferPool that attributes Get/Put to the scheduled connection, locates the pooled []byte by reflection, poisons it on Put and verifies the poison on the next Get and at the end; each connection runs a rapid-generated write program (invalid requests, writers left open, close messages, optional transport fault at operation k as in C10); the programs are interleaved API call by API call by a generated schedule; in a quarter of the programs Conn.Close() is called after the k-th API call (also while a message is open): it must not change the number of buffers the connection holds. Oracle after EVERY call: buffers held by the connection == 1 iff a message writer is open and has not failed (0 between messages however the message ended); Get/Put alternate, the buffer returned is the one taken and is not already pooled; poison intact; afterwards Get==Put and each connection's wire decodes to exactly its own messages. Non-trivial = >=2 connections alternating on the pool, or a message ended by an error / implicit close / invalid request.",
         "assumptions": TRUST + ["the pooled value's []byte is found by reflection (struct field or pointer); if it cannot be located the poison checks are skipped and the evidence says DEGRADED", "part pool-concurrent (-race binary): the same populations with every connection's program in its own goroutine; each connection gets its own view of the shared pool so Get/Put stay attributed; oracle adds: race detector report unchanged"],
         "level_text": "Bounded random exploration of programs x interleavings with a reference count of open writers.",
         "level_note": "Interleaving granularity is one public API call.",
@@ -217,7 +217,7 @@ PROPS = {
     "C17": {
         "title": "No bytes are lost or reordered at the handshake boundary",
         "level": "fault_enumeration",
-        "rule": "a rapid-generated conformant stream S (C03 generator: fragmentation, control frames, compression, close) is glued to the handshake and EVERY split is tried. Server: for every k in 0..min(h, len S) the first k bytes sit in the hijacked bufio.Reader of size h in {16,64,128,255,256,257,512,4096,8192} and the rest arrives from the socket under a generated chunking, with Upgrader.ReadBufferSize in {0,1,64,255,256,257,1024} - this selects the three code paths reuse-hijacked-reader / wrap-buffered-bytes / fresh-reader, reported separately. Client: the transport delivers '101 response || S' with the first read returning k bytes for every k in 1..len(response)+len(S) and the rest under a generated chunking, ReadBufferSize in {0,1,64,125,126,300,4096}; optionally a second connection is dialed (its own frames glued to its 101) after the first Dial returned and before the first connection is read, and each must deliver its own messages. The transport may return its last bytes together with io.EOF. Oracle: the messages read from the returned Conn (generated read program) equal the encoded ones, complete and in order, and a glued close frame is reported. Non-trivial = a split strictly inside S.",
+        "rule": "a rapid-generated conformant stream S (C03 generator: fragmentation, control frames, compression, close) is glued to the handshake and EVERY split is tried. Server: for every k in 0..min(h, len S) the first k bytes sit in the hijacked bufio.Reader of size h in {16,64,128,255,256,257,512,4096,8192} and the rest arrives from the socket under a generated chunking, with Upgrader.ReadBufferSize in {0,1,64,255,256,257,1024} - this selects the three code paths reuse-hijacked-reader / wrap-buffered-bytes / fresh-reader, reported separately. Client: the transport delivers '101 response || S' with the first read returning k bytes for every k in 1..len(response)+len(S) and the rest under a generated chunking, ReadBufferSize in {0,1,64,125,126,300,4096}; optionally a second connection is dialed (its own frames glued to its 101) after the first Dial returned and before the first connection is read, and each must deliver its own messages. A third of the client cases dial through DialContext with an httptrace.ClientTrace (all hooks set) in the context. The transport may return its last bytes together with io.EOF. Oracle: the messages read from the returned Conn (generated read program) equal the encoded ones, complete and in order, and a glued close frame is reported. Non-trivial = a split strictly inside S.",
         "assumptions": TRUST,
         "level_text": "Every split point of each generated stream is enumerated (exhaustive per stream and buffer combination); streams and buffer sizes are sampled. The split point is the injected condition, hence fault_enumeration.",
         "level_note": "Reference model from the independent encoder.",
